@@ -91,9 +91,10 @@ def sync_twin(real, twin):
 
 
 def inputs_for(cls, F, g, dtype):
+    n = (3, 1, 4)[int(torch.randint(3, (1,), generator=g))]       # single-row batches too
     if cls == "conv":
-        return torch.randn(3, F, 2, 2, generator=g).to(dtype)
-    return torch.randn(3, F, generator=g).to(dtype)
+        return torch.randn(n, F, 2, 2, generator=g).to(dtype)
+    return torch.randn(n, F, generator=g).to(dtype)
 
 
 PROBES = [["eval", "cache_on", "forward", "inverse"], ["forward", "inverse"], ["eval", "cache_on", "inverse", "forward"],
@@ -258,6 +259,23 @@ def step(r, cls, F, real, twin, op, g, hist, interesting, before):
                 r.count("cached_path_calls")
             good = _cmp(r, "outputs", got[0], ref[0], cls, hist, before, op, dtype) and \
                 _cmp(r, "logabsdet", got[1], ref[1], cls, hist, before, op, dtype)
+            if good:
+                # the results belong to the caller, who may go on accumulating into them (logabsdet += ..., outputs *= ...) as
+                # with the uncached transform; whatever that does to the memo shows in the next compared call
+                try:
+                    ref[1].add_(1.0)
+                    ref[0].mul_(2.0)
+                except Exception:
+                    pass
+                else:
+                    r.count("inplace_updates_of_results")
+                    try:
+                        got[1].add_(1.0)
+                        got[0].mul_(2.0)
+                    except Exception as e:
+                        r.viol("raises", "%s with caching returns results that cannot be updated in place where the uncached transform's can" % cls,
+                               history=hist, state=before, op=op, exc=repr(e)[:200], exc_type=type(e).__name__)
+                        return False
             if interesting and good:
                 r.cell(cls, before, op)
             return good
